@@ -231,6 +231,7 @@ func extractC19(c *ctxT) {
 	strs("intermediateSenderHashArgs", hashArgs, "arguments of address.Hash")
 	c.c19Flow(&sb)
 	c.c19Ack(&sb)
+	c.c19Parse(&sb)
 	sb.WriteString("end FxVerif.Gen.C19\n")
 	c.write("C19.lean", sb.String())
 }
